@@ -1,4 +1,5 @@
 from vf.props.common import *
+from vf import planenv
 from vf.props.e4cfg import *
 EXPLANATION = ('cbmc over the real stage kernels (cr-core.c via cr32.c / cr64.c: poly-fir.h stdPrecCore + highPrecCore, poly-fir0.h, half-fir.h, '
                'cubic_stage_fn): one call from ANY clock value in range: the virtual read position consumed*unit + at advances by exactly '
@@ -17,4 +18,6 @@ def obligations(tier):
     obls += [e2e_obl(c, ('sym',), tier) for c in e2e_cfgs(tier)[:8]]
     obls += [plan_obl(1, 0)]      # planner pieces of cr.c (set_dft_length / dft_stage_init / validation prefix)
     obls.append(init_qq_obl())      # real _soxr_init for the quick recipe: cubic stage inside its envelope
+    obls += dft_set(tier)      # the DFT stage: block bookkeeping and phase carry of the real dft_stage_fn
+    obls += planenv.obls(tier)      # ENV-(b): plans of the real _soxr_init inside the envelope the kernel obligations assume (enumeration, labelled)
     return obls
